@@ -7,7 +7,7 @@ import struct
 from pathlib import Path
 
 from vf.core import SECTOR, BytesModel, ConcatModel, Model, as_handle, rng_for
-from vf.diskcheck import compare_reads, continuation_reads, crossing_count, gen_requests
+from vf.diskcheck import compare_reads, continuation_reads, fault_retry_reads, crossing_count, gen_requests
 from vf.monitors import call
 from vf.writers import hds as w
 
@@ -277,6 +277,7 @@ def run(case: dict, ctx) -> dict:
     cs = meta["cluster_size"]
     reqs, exhaustive = gen_requests(rng, meta["size"], [cs], n_random=40 if ctx.tier == "quick" else 150)
     continuation_reads(st, model, reqs, rng, res, MECH)
+    fault_retry_reads(st, model, reqs, rng, res, MECH)
     compare_reads(st, model, reqs, res, MECH)
     if fh is not None and fh.mutations:
         res["viol"].append({"what": "handle mutated", "mech": "c09.handle", "detail": {"m": fh.mutations[:3]}})
